@@ -19,12 +19,12 @@ func init() {
 		NotDecided: "byte identity of source and destination stores; packfile splitting arithmetic.",
 	}
 	props["C13"] = &propSpec{
-		Rules:      []string{"C13-a", "C13-b", "C13-c"},
+		Rules:      []string{"C13-a", "C13-b", "C13-c", "C13-g", "C07-b", "C09-a", "C12-e"},
 		Decides:    "write-order necessary conditions of crash consistency on every path: the table object is written after its derived indices (C13-a), after the worker join (C13-b); refs are written with a sum that is data-dependent on SaveCommit (C13-c); fetch saves refs after objects (C09-a); prune deletes commits last (C12-e); no commit before its parents (C07-b); SQL multi-statement writes run in one transaction (C13-g).",
 		NotDecided: "repeatability of the operation after a crash; effects of a crash inside a multi-branch pull; atomicity of the underlying stores (trusted).",
 	}
 	props["C10"] = &propSpec{
-		Rules:      []string{"C10-a", "C10-b", "C10-c", "C10-e"},
+		Rules:      []string{"C10-a", "C10-b", "C10-c", "C10-d", "C10-e"},
 		Decides:    "every ref-update site in fetch and push is reachable only through a fast-forward, force, new-ref or delete permit (C10-a); existing tags additionally need force (C10-b); ref writes go through the logging API only (C10-c); the reflog's old value is read inside the same SQL transaction (C10-d); merge writes refs only after the merge base was computed (C10-e, weak).",
 		NotDecided: "that IsAncestorOf answers correctly (C11); merge's fast-forward condition (control-dependent on SeekCommonAncestor); pull's new-branch detection; the remote side of push.",
 	}
@@ -42,5 +42,10 @@ func init() {
 		Rules:      []string{"C14-a", "C14-b", "C14-c"},
 		Decides:    "typestate guard: Commit and Discard test the transaction's status before any mutation (C14-a); Commit's per-branch ref update is skipped for branches already logged under this transaction, so a failed commit can be completed by re-running without duplicating commits (C14-b); no branch mutation is reachable from Discard (C14-c).",
 		NotDecided: "the outcome of every crash point; log contents; atomicity of a single run (the per-branch loop is not one store transaction).",
+	}
+	props["C15"] = &propSpec{
+		Rules:      []string{"C15-a", "C13-g", "C10-d", "C15-c"},
+		Decides:    "the SQL ref store's text and transaction discipline: no pattern operator (LIKE/GLOB/…) in any query, so prefix listing is literal and case-sensitive (C15-a); multi-statement writes run on one *sql.Tx (C13-g); the reflog's old value is read in the same transaction (C10-d); rename/copy/delete change ref and log rows together (C15-c).",
+		NotDecided: "sequence semantics of the store against a map model; the file store (pkg/ref/fs is imported only by tests and is outside the production call graph).",
 	}
 }
